@@ -601,6 +601,86 @@ VF_PART(near_quad_L3) { nearBoundary(C, 3, 4); }
 VF_PART(near_penta_L2) { nearBoundary(C, 2, 5); }
 VF_PART(near_penta_L3) { if (C.thorough()) nearBoundary(C, 3, 5); }
 
+// ---- decimal (non-dyadic) coordinates: digitised polygons (typed tenths, k/10.) against computed lattices (k*0.1, k*0.15) --
+// The query ordinate is then often ONE ULP away from a vertex ordinate (3*0.1 != 0.3), far from the boundary in x: any
+// rounding inside the crossing rule (instead of exact comparisons of ordinates) flips the parity of whole rows.
+// Reference: every double in {0} u [1/16,4) is an integer multiple of 2^-56 below 2^58, so the orientation predicate is exact
+// in __int128 (differences < 2^59, products < 2^118). Points nearer than 1e-6 to the boundary are not judged.
+static ll toFix56(double v)
+{
+  if (v != 0. && !(v >= 0.0625 && v < 4.)) { fprintf(stderr, "toFix56: %g out of the exact range\n", v); abort(); }
+  double s = std::ldexp(v, 56);
+  if (s != std::floor(s)) { fprintf(stderr, "toFix56: %a not a multiple of 2^-56\n", v); abort(); }
+  return (ll)s;
+}
+static double distSeg(double ax, double ay, double bx, double by, double px, double py)
+{
+  double dx = bx - ax, dy = by - ay, l2 = dx * dx + dy * dy;
+  double t = l2 > 0 ? ((px - ax) * dx + (py - ay) * dy) / l2 : 0.;
+  t = std::max(0., std::min(1., t));
+  return std::hypot(px - (ax + t * dx), py - (ay + t * dy));
+}
+static std::string tenthStr(const std::vector<P>& r)
+{
+  std::string s = "[";
+  for (size_t i = 0; i < r.size(); i++) s += (i ? "," : "") + std::string("[") + std::to_string(r[i].x) + "," + std::to_string(r[i].y) + "]";
+  return s + "]";
+}
+static void decimalLattice(Ctx& C, int nv, const std::vector<int>& tenths)
+{
+  int nt = (int)tenths.size(), np = nt * nt;
+  // query abscissae / ordinates: computed the way a grid computes them
+  std::vector<double> q;
+  for (int i = 0; i <= 25; i++) q.push_back(i * 0.1);
+  for (int i = 1; i <= 17; i++) q.push_back(i * 0.15);
+  for (int i = 1; i <= 12; i++) q.push_back(0.05 + i * 0.2);
+  { double acc = 0.; for (int i = 1; i <= 25; i++) { acc += 0.1; q.push_back(acc); } }   // running sum
+  std::sort(q.begin(), q.end()); q.erase(std::unique(q.begin(), q.end()), q.end());
+  std::vector<double> qq; for (double v : q) if (v == 0. || (v >= 0.0625 && v < 4.)) qq.push_back(v);
+  Space sp;
+  for (int k = 0; k < nv; k++) sp.axis("v" + std::to_string(k), np);
+  for_each_case(C, sp, [&](uint64_t id, const std::vector<int>& idx) {
+    std::vector<P> r; std::vector<Q> rq; VectorDouble x, y;
+    for (int k = 0; k < nv; k++)
+    {
+      for (int j = 0; j < k; j++) if (idx[j] == idx[k]) return;
+      int tx = tenths[idx[k] % nt], ty = tenths[idx[k] / nt];
+      r.push_back({tx, ty});                       // integer tenths: exact simplicity test
+      double vx = tx / 10., vy = ty / 10.;         // what a typed decimal literal gives (correctly rounded)
+      x.push_back(vx); y.push_back(vy);
+      rq.push_back({toFix56(vx), toFix56(vy)});
+    }
+    if (idx[0] != *std::min_element(idx.begin(), idx.end())) return;   // each cyclic sequence once (both orientations kept)
+    if (!isSimple(r)) { C.skip(); return; }
+    Polygons pset; pset.addPolyElem(PolyElem(x, y));
+    VectorDouble xc = x, yc = y; xc.push_back(x[0]); yc.push_back(y[0]);
+    PolyElem closed(xc, yc);
+    VectorDouble coor(2);
+    bool ulpLevel = false; int nin = 0, nout = 0;
+    for (double px : qq)
+      for (double py : qq)
+      {
+        int ref = refInsideQ(rq, {toFix56(px), toFix56(py)});
+        if (ref < 0) { C.outcome("boundary-point-excluded"); continue; }
+        double d = 1e30;
+        for (int k = 0; k < nv; k++) d = std::min(d, distSeg(x[k], y[k], x[(k + 1) % nv], y[(k + 1) % nv], px, py));
+        if (d < 1e-6) { C.outcome("nearer-than-1e-6-to-boundary-excluded"); continue; }
+        for (int k = 0; k < nv; k++) if (py != y[k] && std::fabs(py - y[k]) < 1e-12) ulpLevel = true;
+        coor[0] = px; coor[1] = py;
+        bool g0 = closed.inside(coor), g1 = pset.inside(coor, false);
+        C.eval(2);
+        ref ? nin++ : nout++;
+        if (g0 != (bool)ref || g1 != (bool)ref)
+          C.violation("pip:decimal-lattice", "typed-decimal polygon against a computed lattice point: PolyElem::inside=" + std::to_string(g0) + " Polygons::inside=" + std::to_string(g1) + " exact=" + std::to_string(ref) +
+                      " ring(tenths)=" + tenthStr(r) + " point=(" + fmt(px) + "," + fmt(py) + ") distance to boundary=" + fmt(d), std::to_string(id));
+      }
+    if (ulpLevel && nin && nout) C.nontrivial(id);
+    if (id % 4001 == 7) C.sample("{\"id\":" + std::to_string(id) + ",\"ring_tenths\":" + tenthStr(r) + ",\"queries\":\"k*0.1, k*0.15, 0.05+k*0.2, running sums of 0.1\"}");
+  });
+}
+VF_PART(decimal_tri) { decimalLattice(C, 3, C.thorough() ? std::vector<int>{1, 2, 3, 6, 7, 9, 12, 20} : std::vector<int>{2, 3, 7, 9, 12, 20}); }
+VF_PART(decimal_quad) { decimalLattice(C, 4, C.thorough() ? std::vector<int>{2, 3, 7, 9, 12, 20} : std::vector<int>{2, 3, 9, 20}); }
+
 // ---- translated / scaled copies: the answer must not depend on where the polygon sits (large coordinates) -----------
 VF_PART(translated)
 {
